@@ -28,7 +28,7 @@ class CmdLedger:
     def __init__(self):
         self.outputs = {}
 
-    def factory(self, r, i):
+    def factory(self, r, i, in_word=False):
         n = r.randint(1, 4)
         cands = ['k%d%s' % (i, ch) for ch in 'abcd'[:n]]
         lines = []
